@@ -57,6 +57,7 @@ Inductive wstep : Type :=
 | WPrefix                        (* length prefix store / read *)
 | WHdrReserve | WHdrConst | WHdrBack   (* delimiter header: reserve 32 bits / constant header first / written after the body *)
 | WNested                        (* nested routine on &buffer[cursor / 8] *)
+| WSubspan (hdr : bool)          (* C++: sub-span for the nested routine, after the 32 header bits when hdr *)
 (* deserialization *)
 | WCapBits                       (* capacity_bits := 8 * capacity *)
 | WAlign                         (* cursor rounded up to the alignment *)
@@ -76,65 +77,64 @@ Definition akind_eqb (a b : akind) : bool :=
   | _, _ => false
   end.
 
-(* rule: statement kind, substring of the payload, meaning (None = boilerplate that has no counterpart in the walker:
-   braces, declarations of temporaries, asserts, NULL-argument handling (invalid_arg is outside the modelled contract)) *)
+(* rule: statement kind, the WHOLE payload (equality, not substring), meaning.  The table is closed: a statement that is not
+   listed verbatim - an edited statement, a `break;` / `continue;` / `goto`, an extra `return`, any preprocessor line
+   (`#if 0` ... `#endif`), a getter where a setter stood - is `WUnknown` and belongs to no plan.  `None` marks the listed boilerplate
+   that has no counterpart in the walker: the block braces the scanner emits (payload ""), the declarations of the named
+   temporaries, the static and runtime asserts (each listed verbatim), NULL-argument handling (invalid_arg is outside the
+   modelled contract), the literal error returns that follow a classified guard.  Several statements mapping to one walker step
+   ARE the explicit abstractions (see the header). *)
 Definition rules : list (akind * string * option wstep) :=
-  [ (* --- boilerplate --- *)
-    (KOpen, "", None); (KClose, "", None); (KDecl, "", None); (KSAssert, "", None); (KRAssert, "", None); (KPre, "", None);
-    (KMacro, "_guard(", None);                                   (* emits nothing unless opt_override_capacity: TplTie.c_guard_macro_shape *)
-    (KGuard, "valuetoken_null", None); (KReturn, "INVALID_ARGUMENT", None); (KStore, "buffer = (const", None);
-    (KReturn, "return NUNAVUT_SUCCESS;", None); (KElse, "else", None);
-    (KGuard, "if ({{ <err> }} < 0)", Some WErrProp); (KReturn, "return {{ <err> }};", None);
-    (KStore, "const {{ typename_unsigned_bit_length }} {{ <origin> }} = offset_bits;", None); (KCall, "(void) {{ <origin> }};", None);
-    (* --- top level --- *)
-    (KMacro, "_serialize_impl(t)", Some WAny); (KMacro, "_deserialize_impl(t)", Some WAny);
+  [
+    (KGuard, "if ((obj == {{ valuetoken_null }}) || (buffer == {{ valuetoken_null }}) || (inout_buffer_size_bytes == {{ valuetoken_null }}))", None);
+    (KOpen, "", None);
+    (KReturn, "return -NUNAVUT_ERROR_INVALID_ARGUMENT;", None);
+    (KClose, "", None);
+    (KMacro, "_serialize_impl(t)", Some WAny);
     (KStore, "*inout_buffer_size_bytes = 0U;", Some WFinalSize);
-    (KStore, "capacity_bytes = *inout_buffer_size_bytes;", None);
-    (KStore, "capacity_bits = capacity_bytes *", Some WCapBits);
-    (KGuard, "capacity_bytes) < {{ t.inner_type.bit_length_set.max }}UL)", Some WCapCheck);
-    (KReturn, "SERIALIZATION_BUFFER_TOO_SMALL", None);
-    (KStore, "offset_bits = 0U;", Some WStart);
-    (KMacro, "_pad_to_alignment(", Some WPad);
-    (KMacro, "_serialize_any(", Some WAny); (KMacro, "_deserialize_any(", Some WAny);
-    (KMacro, "_serialize_integer(t.inner_type.tag_field_type", Some WTag); (KMacro, "_deserialize_integer(t.inner_type.tag_field_type", Some WTag);
-    (KGuard, "U == obj->_tag_)", Some WTagCase); (KGuard, "U == out_obj->_tag_)", Some WTagCase);
-    (KReturn, "BAD_UNION_TAG", Some WBadTag);
+    (KReturn, "return NUNAVUT_SUCCESS;", None);
+    (KStore, "const {{ typename_unsigned_length }} capacity_bytes = *inout_buffer_size_bytes;", None);
+    (KGuard, "if ((8U * ({{ typename_unsigned_bit_length }}) capacity_bytes) < {{ t.inner_type.bit_length_set.max }}UL)", Some WCapCheck);
+    (KReturn, "return -NUNAVUT_ERROR_SERIALIZATION_BUFFER_TOO_SMALL;", None);
+    (KStore, "{{ typename_unsigned_bit_length }} offset_bits = 0U;", Some WStart);
+    (KMacro, "_pad_to_alignment(f.data_type.alignment_requirement)", Some WPad);
+    (KMacro, "_serialize_any(f.data_type, 'obj->' + (f|id), offset)", Some WAny);
+    (KMacro, "_serialize_integer(t.inner_type.tag_field_type, 'obj->_tag_', 0|bit_length_set)", Some WTag);
+    (KGuard, "{{ 'if' if loop.first else 'else if' }} ({{ loop.index0 }}U == obj->_tag_)", Some WTagCase);
+    (KElse, "else", None);
+    (KReturn, "return -NUNAVUT_ERROR_REPRESENTATION_BAD_UNION_TAG;", Some WBadTag);
+    (KMacro, "_pad_to_alignment(t.inner_type.alignment_requirement)", Some WPad);
+    (KRAssert, "'offset_bits >= %sULL'|format(t.inner_type.bit_length_set.min)", None);
+    (KRAssert, "'offset_bits <= %sULL'|format(t.inner_type.bit_length_set.max)", None);
+    (KRAssert, "'offset_bits == %sULL'|format(t.inner_type.bit_length_set.max)", None);
+    (KRAssert, "'offset_bits % 8U == 0U'", None);
     (KStore, "*inout_buffer_size_bytes = ({{ typename_unsigned_length }}) (offset_bits / 8U);", Some WFinalSize);
-    (KCall, "(nunavutChooseMin(offset_bits, capacity_bits) / 8U);", Some WFinalSizeMin);
-    (* --- padding --- *)
     (KGuard, "if (offset_bits % {{ n_bits }}U != 0U)", Some WPadIfNeeded);
-    (KStore, "{{ <pad> }} = (uint8_t)({{ n_bits }}U - offset_bits % {{ n_bits }}U);", None);
-    (KCall, "nunavutSetUxx(&buffer[0], capacity_bytes, offset_bits, 0U, {{ <pad> }});", Some WPadZeros);
+    (KStore, "const uint8_t {{ <pad> }} = (uint8_t)({{ n_bits }}U - offset_bits % {{ n_bits }}U);", None);
+    (KRAssert, "'%s > 0'|format(<pad>)", None);
+    (KCall, "const {{ typename_error_type }} {{ <err> }} = nunavutSetUxx(&buffer[0], capacity_bytes, offset_bits, 0U, {{ <pad> }});", Some WPadZeros);
+    (KGuard, "if ({{ <err> }} < 0)", Some WErrProp);
+    (KReturn, "return {{ <err> }};", None);
     (KCursor, "offset_bits += {{ <pad> }};", Some (WAdv ZPadLen));
-    (KCursor, "offset_bits = (offset_bits + {{ n_bits - 1 }}U) & ~", Some WAlign);
-    (* --- dispatch (the macro the walker arm models: TplTie.c_dispatch_routes_like_walker) --- *)
-    (KMacro, "_serialize_void(", Some WAny); (KMacro, "_serialize_boolean(", Some WAny); (KMacro, "_serialize_float(", Some WAny);
-    (KMacro, "_serialize_fixed_length_array(", Some WAny); (KMacro, "_serialize_variable_length_array(", Some WAny);
-    (KMacro, "_serialize_composite(", Some WAny);
-    (KMacro, "_deserialize_void", Some WAny); (KMacro, "_deserialize_boolean", Some WAny); (KMacro, "_deserialize_float", Some WAny);
-    (KMacro, "_deserialize_fixed_length_array", Some WAny); (KMacro, "_deserialize_variable_length_array", Some WAny);
-    (KMacro, "_deserialize_composite", Some WAny);
-    (* --- length prefix / delimiter header through the integer macro --- *)
-    (KMacro, "_serialize_integer(t.length_field_type", Some WPrefix); (KMacro, "_deserialize_integer(t.length_field_type", Some WPrefix);
-    (KMacro, "_serialize_integer(t.delimiter_header_type", Some WHdrConst); (KMacro, "_deserialize_integer(t.delimiter_header_type", Some WHdrRead);
-    (KMacro, "_serialize_integer(t, reference, offset)", Some WAny); (KMacro, "_deserialize_integer(t, reference, offset)", Some WAny);
-    (* --- void --- *)
+    (KRAssert, "'offset_bits %% %dU == 0U'|format(n_bits)", None);
+    (KRAssert, "'offset_bits %% %dU == 0U'|format(t.alignment_requirement)", None);
+    (KRAssert, "'(offset_bits + %dULL) <= (capacity_bytes * 8U)'|format(t.bit_length_set.max)", None);
+    (KMacro, "_serialize_void(t, offset)", Some WAny);
+    (KMacro, "_serialize_boolean(t, reference, offset)", Some WAny);
+    (KMacro, "_serialize_integer(t, reference, offset)", Some WAny);
+    (KMacro, "_serialize_float(t, reference, offset)", Some WAny);
+    (KMacro, "_serialize_fixed_length_array(t, reference, offset)", Some WAny);
+    (KMacro, "_serialize_variable_length_array(t, reference, offset)", Some WAny);
+    (KMacro, "_serialize_composite(t, reference, offset)", Some WAny);
     (KStore, "buffer[offset_bits / 8U] = 0U;", Some WZeroByte);
-    (KCall, "(void) memset(&buffer[offset_bits / 8U], 0,", Some WZeros);
-    (KCall, "nunavutSetUxx(&buffer[0], capacity_bytes, offset_bits, 0U, {{ t.bit_length }}U);", Some WZeros);
+    (KCall, "(void) memset(&buffer[offset_bits / 8U], 0, {{ t.bit_length|bits2bytes_ceil }});", Some WZeros);
+    (KCall, "const {{ typename_error_type }} {{ <err> }} = nunavutSetUxx(&buffer[0], capacity_bytes, offset_bits, 0U, {{ t.bit_length }}U);", Some WZeros);
     (KCursor, "offset_bits += {{ t.bit_length }}UL;", Some (WAdv ZBits));
-    (KCursor, "offset_bits += {{ t.bit_length }};", Some (WAdv ZBits));
-    (* --- bool --- *)
     (KStore, "buffer[offset_bits / 8U] = {{ reference }} ? 1U : 0U;", Some WByteStore);
     (KGuard, "if ({{ reference }})", None);
-    (KStore, "(buffer[offset_bits / 8U] | (1U << (offset_bits % 8U)));", Some WSetBits);
-    (KStore, "(buffer[offset_bits / 8U] & ~(1U << (offset_bits % 8U)));", None);       (* the other arm of the same one-bit store *)
+    (KStore, "buffer[offset_bits / 8U] = ({{ typename_byte }})(buffer[offset_bits / 8U] | (1U << (offset_bits % 8U)));", Some WSetBits);
+    (KStore, "buffer[offset_bits / 8U] = ({{ typename_byte }})(buffer[offset_bits / 8U] & ~(1U << (offset_bits % 8U)));", None);
     (KCursor, "offset_bits += 1U;", Some (WAdv ZOne));
-    (KGuard, "if (offset_bits < capacity_bits)", Some WGuardInside);
-    (KStore, "{{ reference }} = (buffer[offset_bits / 8U] & 1U) != 0U;", Some WLoadBit);
-    (KStore, "{{ reference }} = (buffer[offset_bits / 8U] & (1U << (offset_bits % 8U))) != 0U;", Some WLoadBit);
-    (KStore, "{{ reference }} = {{ valuetoken_false }};", Some WLoadZero);
-    (* --- integer --- *)
     (KStore, "{{ t|type_from_primitive }} {{ <sat> }} = {{ reference }};", None);
     (KGuard, "if ({{ <sat> }} < {{ t.inclusive_value_range[0]|literal(t) }})", Some WClampLo);
     (KStore, "{{ <sat> }} = {{ t.inclusive_value_range[0]|literal(t) }};", None);
@@ -142,69 +142,115 @@ Definition rules : list (akind * string * option wstep) :=
     (KStore, "{{ <sat> }} = {{ t.inclusive_value_range[1]|literal(t) }};", None);
     (KStore, "buffer[offset_bits / 8U] = ({{ typename_byte }})({{ <sat> }});", Some WByteStore);
     (KCall, "(void) memmove(&buffer[offset_bits / 8U], &{{ <sat> }}, {{ t.bit_length|bits2bytes_ceil }}U);", Some WSetBits);
-    (KCall, "xx(&buffer[0], capacity_bytes, offset_bits, {{ <sat> }}, {{ t.bit_length }}U);", Some WSetBits);
+    (KCall, "const {{ typename_error_type }} {{ <err> }} = nunavutSet{{ 'U' if t is UnsignedIntegerType else 'I' }}xx(&buffer[0], capacity_bytes, offset_bits, {{ <sat> }}, {{ t.bit_length }}U);", Some WSetBits);
     (KCursor, "offset_bits += {{ t.bit_length }}U;", Some (WAdv ZBits));
+    (KGuard, "if (isfinite({{ <sat> }}))", Some WClampF16);
+    (KSAssert, "static_assert(NUNAVUT_PLATFORM_IEEE754_FLOAT, ""Native IEEE754 binary32 required. TODO: relax constraint"");", None);
+    (KSAssert, "static_assert(NUNAVUT_PLATFORM_IEEE754_DOUBLE, ""Native IEEE754 binary64 required. TODO: relax constraint"");", None);
+    (KCall, "const uint16_t {{ <half> }} = nunavutFloat16Pack({{ <sat> }});", None);
+    (KCall, "(void) memmove(&buffer[offset_bits / 8U], &{{ <half> }}, 2U);", Some WSetBits);
+    (KCall, "(void) memmove(&buffer[offset_bits / 8U], &{{ <sat> }}, 4U);", Some WSetBits);
+    (KCall, "(void) memmove(&buffer[offset_bits / 8U], &{{ <sat> }}, 8U);", Some WSetBits);
+    (KCall, "const {{ typename_error_type }} {{ <err> }} = nunavutSetF{{ t.bit_length }}(&buffer[0], capacity_bytes, offset_bits, {{ <sat> }});", Some WSetBits);
+    (KCall, "nunavutCopyBits(&buffer[0], offset_bits, {{ t.capacity }}UL, &{{ reference }}_bitpacked_[0], 0U);", Some (WBulk ZCap));
+    (KCursor, "offset_bits += {{ t.capacity }}UL;", Some (WAdv ZCap));
+    (KCall, "nunavutCopyBits(&buffer[0], offset_bits, {{ t.capacity }}UL * 8U, &{{ reference }}[0], 0U);", Some (WBulk ZCap8));
+    (KCursor, "offset_bits += {{ t.capacity }}UL * 8U;", Some (WAdv ZCap8));
+    (KCall, "nunavutCopyBits(&buffer[0], offset_bits, {{ t.capacity }}UL * {{ t.element_type.bit_length }}UL, &{{ reference }}[0], 0U);", Some (WBulk ZCapW));
+    (KCursor, "offset_bits += {{ t.capacity }}UL * {{ t.element_type.bit_length }}UL;", Some (WAdv ZCapW));
+    (KStore, "const {{ typename_unsigned_bit_length }} {{ <origin> }} = offset_bits;", None);
+    (KLoop, "for (size_t {{ <index> }} = 0U; {{ <index> }} < {{ t.capacity }}UL; ++{{ <index> }})", Some WLoop);
+    (KMacro, "_serialize_any(t.element_type, reference + ('[%s]'|format(<index>)), element_offset)", Some WAny);
+    (KRAssert, "'(offset_bits - %s) >= %sULL'|format(<origin>, t.bit_length_set.min)", None);
+    (KRAssert, "'(offset_bits - %s) <= %sULL'|format(<origin>, t.bit_length_set.max)", None);
+    (KRAssert, "'(offset_bits - %s) == %sULL'|format(<origin>, t.bit_length_set.max)", None);
+    (KCall, "(void) {{ <origin> }};", None);
+    (KGuard, "if ({{ reference }}.count > {{ t.capacity }})", Some WLenCheck);
+    (KReturn, "return -NUNAVUT_ERROR_REPRESENTATION_BAD_ARRAY_LENGTH;", None);
+    (KMacro, "_serialize_integer(t.length_field_type, reference + '.count', offset)", Some WPrefix);
+    (KCall, "nunavutCopyBits(&buffer[0], offset_bits, {{ reference }}.count, &{{ reference }}.bitpacked[0], 0U);", Some (WBulk ZCnt));
+    (KCursor, "offset_bits += {{ reference }}.count;", Some (WAdv ZCnt));
+    (KCall, "nunavutCopyBits(&buffer[0], offset_bits, {{ reference }}.count * 8U, &{{ reference }}.elements[0], 0U);", Some (WBulk ZCnt8));
+    (KCursor, "offset_bits += {{ reference }}.count * 8U;", Some (WAdv ZCnt8));
+    (KCall, "nunavutCopyBits(&buffer[0], offset_bits, {{ reference }}.count * {{ t.element_type.bit_length }}UL, &{{ reference }}.elements[0], 0U);", Some (WBulk ZCntW));
+    (KCursor, "offset_bits += {{ reference }}.count * {{ t.element_type.bit_length }}UL;", Some (WAdv ZCntW));
+    (KLoop, "for (size_t {{ <index> }} = 0U; {{ <index> }} < {{ reference }}.count; ++{{ <index> }})", Some WLoop);
+    (KMacro, "_serialize_any(t.element_type, reference + ('.elements[%s]'|format(<index>)), element_offset)", Some WAny);
+    (KStore, "{{ typename_unsigned_length }} {{ <size_bytes> }} = {{ size_bytes }}UL;", None);
+    (KCursor, "offset_bits += {{ t.delimiter_header_type.bit_length }}U;", Some WHdrReserve);
+    (KMacro, "_serialize_integer(t.delimiter_header_type, <size_bytes>, offset)", Some WHdrConst);
+    (KRAssert, "'(offset_bits / 8U + %s) <= capacity_bytes'|format(<size_bytes>)", None);
+    (KCall, "{{ typename_error_type }} {{ <err> }} = {{ t|full_reference_name }}_serialize_( &{{ reference }}, &buffer[offset_bits / 8U], &{{ <size_bytes> }});", Some WNested);
+    (KRAssert, "'(%s * 8U) >= %sULL'|format(<size_bytes>, t.inner_type.bit_length_set.min)", None);
+    (KRAssert, "'(%s * 8U) <= %sULL'|format(<size_bytes>, t.inner_type.bit_length_set.max)", None);
+    (KRAssert, "'(%s * 8U) == %sULL'|format(<size_bytes>, t.inner_type.bit_length_set.max)", None);
+    (KCall, "(void) memmove(&buffer[(offset_bits - {{ t.delimiter_header_type.bit_length }}) / 8U], &{{ <size_bytes> }}, {{ t.delimiter_header_type.bit_length|bits2bytes_ceil }}U);", Some WHdrBack);
+    (KCall, "{{ <err> }} = nunavutSetUxx(&buffer[0], capacity_bytes, offset_bits - {{ t.delimiter_header_type.bit_length }}, {{ <size_bytes> }}, {{ t.delimiter_header_type.bit_length }}U);", Some WHdrBack);
+    (KCursor, "offset_bits += {{ <size_bytes> }} * 8U;", Some (WAdv ZSize8));
+    (KRAssert, "'offset_bits <= (capacity_bytes * 8U)'", None);
+    (KGuard, "if ((out_obj == {{ valuetoken_null }}) || (inout_buffer_size_bytes == {{ valuetoken_null }}) || ((buffer == {{ valuetoken_null }}) && (0 != *inout_buffer_size_bytes)))", None);
+    (KGuard, "if (buffer == {{ valuetoken_null }})", None);
+    (KStore, "buffer = (const {{ typename_byte }}*)"""";", None);
+    (KMacro, "_deserialize_impl(t)", Some WAny);
+    (KStore, "const {{ typename_unsigned_bit_length }} capacity_bits = capacity_bytes * ({{ typename_unsigned_bit_length }}) 8U;", Some WCapBits);
+    (KMacro, "_deserialize_any(f.data_type, 'out_obj->' + (f|id), offset)", Some WAny);
+    (KMacro, "_deserialize_integer(t.inner_type.tag_field_type, 'out_obj->_tag_', 0|bit_length_set)", Some WTag);
+    (KGuard, "{{ 'if' if loop.first else 'else if' }} ({{ loop.index0 }}U == out_obj->_tag_)", Some WTagCase);
+    (KCall, "*inout_buffer_size_bytes = ({{ typename_unsigned_length }}) (nunavutChooseMin(offset_bits, capacity_bits) / 8U);", Some WFinalSizeMin);
+    (KRAssert, "'capacity_bytes >= *inout_buffer_size_bytes'", None);
+    (KCursor, "offset_bits = (offset_bits + {{ n_bits - 1 }}U) & ~({{ typename_unsigned_bit_length }}) {{ n_bits - 1 }}U;", Some WAlign);
+    (KMacro, "_deserialize_void(t, offset)", Some WAny);
+    (KMacro, "_deserialize_boolean(t, reference, offset)", Some WAny);
+    (KMacro, "_deserialize_integer(t, reference, offset)", Some WAny);
+    (KMacro, "_deserialize_float(t, reference, offset)", Some WAny);
+    (KMacro, "_deserialize_fixed_length_array(t, reference, offset)", Some WAny);
+    (KMacro, "_deserialize_variable_length_array(t, reference, offset)", Some WAny);
+    (KMacro, "_deserialize_composite(t, reference, offset)", Some WAny);
+    (KCursor, "offset_bits += {{ t.bit_length }};", Some (WAdv ZBits));
+    (KGuard, "if (offset_bits < capacity_bits)", Some WGuardInside);
+    (KStore, "{{ reference }} = (buffer[offset_bits / 8U] & 1U) != 0U;", Some WLoadBit);
+    (KStore, "{{ reference }} = (buffer[offset_bits / 8U] & (1U << (offset_bits % 8U))) != 0U;", Some WLoadBit);
+    (KStore, "{{ reference }} = {{ valuetoken_false }};", Some WLoadZero);
     (KGuard, "if ((offset_bits + {{ t.bit_length }}U) <= capacity_bits)", Some WGuardFits);
     (KStore, "{{ reference }} = buffer[offset_bits / 8U] & {{ 2 ** t.bit_length - 1 }}U;", Some WLoadByteMasked);
     (KStore, "{{ reference }} = 0U;", Some WLoadZero);
     (KCall, "{{ reference }} = {{ getter }}(&buffer[0], capacity_bytes, offset_bits, {{ t.bit_length }});", Some WLoad);
-    (* --- float --- *)
-    (KGuard, "if (isfinite({{ <sat> }}))", Some WClampF16);
-    (KCall, "nunavutFloat16Pack({{ <sat> }});", None);                                   (* part of the 16-bit store: cast_f *)
-    (KCall, "(void) memmove(&buffer[offset_bits / 8U], &{{ <half> }}, 2U);", Some WSetBits);
-    (KCall, "(void) memmove(&buffer[offset_bits / 8U], &{{ <sat> }}, 4U);", Some WSetBits);
-    (KCall, "(void) memmove(&buffer[offset_bits / 8U], &{{ <sat> }}, 8U);", Some WSetBits);
-    (KCall, "nunavutSetF{{ t.bit_length }}(&buffer[0], capacity_bytes, offset_bits, {{ <sat> }});", Some WSetBits);
     (KCall, "{{ reference }} = nunavutGetF{{ t.bit_length }}(&buffer[0], capacity_bytes, offset_bits);", Some WLoad);
-    (* --- arrays --- *)
-    (KCall, "offset_bits, {{ t.capacity }}UL, &{{ reference }}_bitpacked_[0]", Some (WBulk ZCap));
-    (KCall, "offset_bits, {{ t.capacity }}UL * 8U, &{{ reference }}[0]", Some (WBulk ZCap8));
-    (KCall, "offset_bits, {{ t.capacity }}UL * {{ t.element_type.bit_length }}UL, &{{ reference }}[0]", Some (WBulk ZCapW));
     (KCall, "nunavutGetBits(&{{ reference }}_bitpacked_[0], &buffer[0], capacity_bytes, offset_bits, {{ t.capacity }}UL);", Some (WBulk ZCap));
     (KCall, "nunavutGetBits(&{{ reference }}[0], &buffer[0], capacity_bytes, offset_bits, {{ t.capacity }}UL * 8U);", Some (WBulk ZCap8));
     (KCall, "nunavutGetBits(&{{ reference }}[0], &buffer[0], capacity_bytes, offset_bits, {{ t.capacity }}UL * {{ t.element_type.bit_length }}U);", Some (WBulk ZCapW));
-    (KCursor, "offset_bits += {{ t.capacity }}UL;", Some (WAdv ZCap));
-    (KCursor, "offset_bits += {{ t.capacity }}UL * 8U;", Some (WAdv ZCap8));
-    (KCursor, "offset_bits += {{ t.capacity }}UL * {{ t.element_type.bit_length }}U", Some (WAdv ZCapW));
-    (KLoop, "< {{ t.capacity }}UL; ++", Some WLoop);
-    (KLoop, "< {{ reference }}.count; ++", Some WLoop);
-    (KGuard, "if ({{ reference }}.count > {{ t.capacity }}", Some WLenCheck);
-    (KReturn, "BAD_ARRAY_LENGTH", None);
-    (KCall, "offset_bits, {{ reference }}.count, &{{ reference }}.bitpacked[0]", Some (WBulk ZCnt));
-    (KCall, "offset_bits, {{ reference }}.count * 8U, &{{ reference }}.elements[0]", Some (WBulk ZCnt8));
-    (KCall, "offset_bits, {{ reference }}.count * {{ t.element_type.bit_length }}UL, &{{ reference }}.elements[0]", Some (WBulk ZCntW));
+    (KCursor, "offset_bits += {{ t.capacity }}UL * {{ t.element_type.bit_length }}U;", Some (WAdv ZCapW));
+    (KMacro, "_deserialize_any(t.element_type, reference + ('[%s]'|format(<index>)), element_offset)", Some WAny);
+    (KMacro, "_deserialize_integer(t.length_field_type, reference + '.count', offset)", Some WPrefix);
+    (KGuard, "if ({{ reference }}.count > {{ t.capacity }}U)", Some WLenCheck);
     (KCall, "nunavutGetBits(&{{ reference }}.bitpacked[0], &buffer[0], capacity_bytes, offset_bits, {{ reference }}.count);", Some (WBulk ZCnt));
     (KCall, "nunavutGetBits(&{{ reference }}.elements[0], &buffer[0], capacity_bytes, offset_bits, {{ reference }}.count * 8U);", Some (WBulk ZCnt8));
     (KCall, "nunavutGetBits(&{{ reference }}.elements[0], &buffer[0], capacity_bytes, offset_bits, {{ reference }}.count * {{ t.element_type.bit_length }}U);", Some (WBulk ZCntW));
-    (KCursor, "offset_bits += {{ reference }}.count;", Some (WAdv ZCnt));
-    (KCursor, "offset_bits += {{ reference }}.count * 8U;", Some (WAdv ZCnt8));
-    (KCursor, "offset_bits += {{ reference }}.count * {{ t.element_type.bit_length }}U", Some (WAdv ZCntW));
-    (* --- composite --- *)
-    (KStore, "{{ <size_bytes> }} = {{ size_bytes }}UL;", None);
+    (KCursor, "offset_bits += {{ reference }}.count * {{ t.element_type.bit_length }}U;", Some (WAdv ZCntW));
+    (KMacro, "_deserialize_any(t.element_type, reference + ('.elements[%s]'|format(<index>)), element_offset)", Some WAny);
     (KStore, "{{ typename_unsigned_length }} {{ <size_bytes> }} = 0U;", None);
-    (KCursor, "offset_bits += {{ t.delimiter_header_type.bit_length }}U;", Some WHdrReserve);
-    (KCall, "_serialize_( &{{ reference }}, &buffer[offset_bits / 8U], &{{ <size_bytes> }});", Some WNested);
-    (KCall, "(void) memmove(&buffer[(offset_bits - {{ t.delimiter_header_type.bit_length }}) / 8U], &{{ <size_bytes> }},", Some WHdrBack);
-    (KCall, "nunavutSetUxx(&buffer[0], capacity_bytes, offset_bits - {{ t.delimiter_header_type.bit_length }}, {{ <size_bytes> }},", Some WHdrBack);
-    (KCursor, "offset_bits += {{ <size_bytes> }} * 8U;", Some (WAdv ZSize8));
+    (KMacro, "_deserialize_integer(t.delimiter_header_type, <size_bytes>, offset)", Some WHdrRead);
     (KGuard, "if ({{ <size_bytes> }} > {{ remaining_bytes }})", Some WHdrCheck);
-    (KReturn, "BAD_DELIMITER_HEADER", Some WBadHdr);
-    (KStore, "{{ <dh> }} = {{ <size_bytes> }};", Some WHdrKeep);
-    (KStore, "{{ <size_bytes> }} = ({{ typename_unsigned_length }}){{ remaining_bytes }};", Some WRest);
-    (KCall, "_deserialize_( &{{ reference }}, &buffer[", Some WNested);
+    (KReturn, "return -NUNAVUT_ERROR_REPRESENTATION_BAD_DELIMITER_HEADER;", Some WBadHdr);
+    (KStore, "const {{ typename_unsigned_length }} {{ <dh> }} = {{ <size_bytes> }};", Some WHdrKeep);
+    (KStore, "{{ typename_unsigned_length }} {{ <size_bytes> }} = ({{ typename_unsigned_length }}){{ remaining_bytes }};", Some WRest);
+    (KCall, "const {{ typename_error_type }} {{ <err> }} = {{ t|full_reference_name }}_deserialize_( &{{ reference }}, &buffer[nunavutChooseMin(offset_bits / 8U, capacity_bytes)], &{{ <size_bytes> }});", Some WNested);
     (KCursor, "offset_bits += {{ <dh> }} * 8U;", Some (WAdv ZDh8)) ].
 
 Fixpoint classify (rs : list (akind * string * option wstep)) (k : akind) (p : string) : option wstep :=
   match rs with
   | [] => Some (WUnknown k p)
-  | (k', needle, r) :: rest => if akind_eqb k k' && has_sub needle p then r else classify rest k p
+  | (k', whole, r) :: rest => if akind_eqb k k' && String.eqb whole p then r else classify rest k p
   end.
 
-Fixpoint abs_all (l : list (akind * string)) : list wstep :=
+Fixpoint abs_all_in (rs : list (akind * string * option wstep)) (l : list (akind * string)) : list wstep :=
   match l with
   | [] => []
-  | (k, p) :: r => match classify rules k p with Some s => s :: abs_all r | None => abs_all r end
+  | (k, p) :: r => match classify rs k p with Some s => s :: abs_all_in rs r | None => abs_all_in rs r end
   end.
+Definition abs_all := abs_all_in rules.
+Definition sem_in (rs : list (akind * string * option wstep)) (ms : list (string * string * list tnode)) (m : string)
+           (rho : string -> bool) : list wstep := abs_all_in rs (flatten_all rho (find_macro m ms)).
 
 (* the interpreter: statements of macro `m` under the static facts `rho`, in the walker's vocabulary *)
 Definition sem (ms : list (string * string * list tnode)) (m : string) (rho : string -> bool) : list wstep :=
@@ -447,13 +493,40 @@ Proof.
   repeat split; apply same_true; assumption.
 Qed.
 
-(* no statement of any C codec macro is unknown to the rule table, under any assignment used above *)
-Definition no_unknown (l : list wstep) : bool := forallb (fun s => match s with WUnknown _ _ => false | _ => true end) l.
+(* EVERY statement of every C codec macro (all branches of all static decisions, not only the assignments evaluated above) is
+   listed in the rule table *)
+Fixpoint acts (n : tnode) : list (akind * string) :=
+  match n with
+  | NAct k p => [(k, p)]
+  | NSet _ _ | NJAssert _ => []
+  | NFor _ b => (fix go (l : list tnode) := match l with [] => [] | x :: r => acts x ++ go r end)%list b
+  | NIf brs els =>
+      ((fix gb (l : list (cexp * list tnode)) := match l with
+          | [] => []
+          | (_, b) :: r => (fix go (l : list tnode) := match l with [] => [] | x :: r => acts x ++ go r end) b ++ gb r end) brs
+       ++ (fix go (l : list tnode) := match l with [] => [] | x :: r => acts x ++ go r end) els)%list
+  end.
+Definition known (kp : akind * string) : bool :=
+  match classify rules (fst kp) (snd kp) with Some (WUnknown _ _) => false | _ => true end.
 Definition every_macro_known : bool :=
-  forallb (fun m => no_unknown (abs_all (flatten_all (fun _ => true) (snd m))) && no_unknown (abs_all (flatten_all (fun _ => false) (snd m))))
-          (gen_c_ser_macros_default ++ gen_c_des_macros_default).
+  forallb known (flat_map (fun m => flat_map acts (snd m)) (gen_c_ser_macros_default ++ gen_c_des_macros_default)%list).
 Theorem c_rules_total : every_macro_known = true.
 Proof. vm_compute. reflexivity. Qed.
+
+(* the table fails closed: control flow, preprocessor lines, stray returns and getter/setter swaps are NOT boilerplate *)
+Definition is_unknown (k : akind) (p : string) : bool :=
+  match classify rules k p with Some (WUnknown _ _) => true | _ => false end.
+Example rules_fail_closed :
+  is_unknown KDecl "break;" = true /\ is_unknown KDecl "continue;" = true /\ is_unknown KDecl "goto done;" = true /\
+  is_unknown KPre "#if 0" = true /\ is_unknown KPre "#endif" = true /\ is_unknown KPre "#else" = true /\
+  is_unknown KReturn "return 0;" = true /\ is_unknown KReturn "return;" = true /\
+  is_unknown KCall "nunavutGetUxx(&buffer[0], capacity_bytes, offset_bits, {{ <sat> }}, {{ t.bit_length }}U);" = true /\
+  is_unknown KCall "const {{ typename_error_type }} {{ <err> }} = nunavutGetU8(&buffer[0], capacity_bytes, offset_bits, 0U, {{ <pad> }});" = true /\
+  is_unknown KCursor "offset_bits += {{ t.bit_length }}U + 1U;" = true /\
+  is_unknown KDecl "int x;" = true /\ is_unknown KOpen "{ break;" = true /\ is_unknown KRAssert "offset_bits += 8U" = true /\
+  (* ... while the scanned forms are known *)
+  is_unknown KOpen "" = false /\ is_unknown KCursor "offset_bits += {{ t.bit_length }}U;" = false.
+Proof. vm_compute. repeat split; reflexivity. Qed.
 
 (* ================= the primitive plans ARE the walker (exec lemmas) ================= *)
 Section Exec.
@@ -643,6 +716,145 @@ Section Exec.
     walk_des P t buf = bind (wd_body P t buf (length buf) 0) (fun '(v, o) => Ok (v, Nat.min o (length buf) / 8)).   (* WCapBits; WStart ... WFinalSizeMin *)
   Proof. reflexivity. Qed.
 End Exec.
+
+(* ================= executable semantics of the structural plans ================= *)
+Section ExecStruct.
+  Variable P : prims.
+
+  (* what the data-dependent steps of ONE node refer to *)
+  Record sctx := {
+    sx_len_bad : bool;                          (* WLenCheck: count > capacity *)
+    sx_prefix : list bool;                      (* WPrefix: the bits of the length prefix *)
+    sx_tag : list bool;                         (* WTag: the bits of the union tag *)
+    sx_any : list bool -> nat -> wres;          (* WAny / WNested: element loop / selected option / nested body *)
+    sx_hdr : nat -> nat -> list bool            (* WHdrBack: header bits from (cursor after the body, header position) *)
+  }.
+
+  Fixpoint exec_ser_node (steps : list wstep) (cx : sctx) (buf : list bool) (hdr_at off : nat) : wres :=
+    match steps with
+    | [] => Ok (buf, off)
+    | WLenCheck :: r => if sx_len_bad cx then Err EBadLen else exec_ser_node r cx buf hdr_at off
+    | WPrefix :: r => bind (w_set P buf off (sx_prefix cx)) (fun '(b, o) => exec_ser_node r cx b hdr_at o)
+    | WTag :: r => bind (w_set P buf off (sx_tag cx)) (fun '(b, o) => exec_ser_node r cx b hdr_at o)
+    | (WAny | WNested) :: r => bind (sx_any cx buf off) (fun '(b, o) => exec_ser_node r cx b hdr_at o)
+    | WPad :: r => bind (w_pad P buf off 8) (fun '(b, o) => exec_ser_node r cx b hdr_at o)
+    | WHdrReserve :: r => exec_ser_node r cx buf off (off + header_bits)              (* remember where the header goes; skip it *)
+    | WHdrBack :: r => bind (w_set P buf hdr_at (sx_hdr cx off hdr_at)) (fun '(b, _) => exec_ser_node r cx b hdr_at off)
+    | (WLoop | WTagCase | WBadTag | WErrProp | WAdv ZSize8) :: r => exec_ser_node r cx buf hdr_at off
+        (* WLoop: the loop is inside sx_any; WTagCase/WBadTag: the dispatch and its else-arm are inside sx_any (ws_sel fails with
+           bad_tag when no case matches); WAdv ZSize8: the nested routine reports an absolute cursor here *)
+    | _ => Err EShape
+    end.
+
+  Lemma bind_ret (x : wres) : bind x (fun '(b, o) => Ok (b, o)) = x.
+  Proof. destruct x as [[b o]|]; reflexivity. Qed.
+
+  Definition cx_arr (cap : nat) (e : ty) (l : list val) : sctx :=
+    {| sx_len_bad := Nat.ltb cap (length l); sx_prefix := bits_of_N (prefix_bits cap) (N.of_nat (length l)); sx_tag := [];
+       sx_any := ws_list (ws_field P (ws_body P) e) l; sx_hdr := fun _ _ => [] |}.
+
+  Theorem ws_var_is_exec : forall e cap l buf off,
+    ws_body P (TVar e cap) (VArr l) buf off = exec_ser_node walker_ser_varr (cx_arr cap e l) buf 0 off.
+  Proof.
+    intros. cbn [ws_body walker_ser_varr exec_ser_node cx_arr sx_len_bad sx_prefix sx_any].
+    destruct (Nat.ltb cap (length l)); [reflexivity|].
+    destruct (w_set P buf off _) as [[b o]|]; cbn [bind]; [|reflexivity]. rewrite bind_ret. reflexivity.
+  Qed.
+
+  Theorem ws_fix_is_exec : forall e n l buf off, length l = n ->
+    ws_body P (TFix e n) (VArr l) buf off = exec_ser_node walker_ser_farr (cx_arr n e l) buf 0 off.
+  Proof.
+    intros e n l buf off H. cbn [ws_body walker_ser_farr exec_ser_node cx_arr sx_any]. rewrite H, Nat.eqb_refl, bind_ret. reflexivity.
+  Qed.
+
+  Definition cx_field (t : ty) (v : val) : sctx :=
+    {| sx_len_bad := false; sx_prefix := []; sx_tag := []; sx_any := ws_body P t v;
+       sx_hdr := fun o h => bits_of_N header_bits (N.of_nat ((o - (h + header_bits)) / 8)) |}.
+
+  (* the header carries the size of what the nested routine wrote (cursor after - cursor before, in bytes) *)
+  Theorem ws_field_delimited_is_exec : forall u fs x v buf off,
+    ws_field P (ws_body P) (TComp u fs (Some x)) v buf off =
+    exec_ser_node (walker_ser_field true) (cx_field (TComp u fs (Some x)) v) buf 0 off.
+  Proof. reflexivity. Qed.
+
+  Theorem ws_field_sealed_is_exec : forall u fs v buf off,
+    ws_field P (ws_body P) (TComp u fs None) v buf off =
+    exec_ser_node (walker_ser_field false) (cx_field (TComp u fs None) v) buf 0 off.
+  Proof. intros. cbn [ws_field walker_ser_field exec_ser_node cx_field sx_any]. rewrite bind_ret. reflexivity. Qed.
+
+  Definition cx_union (fs : list ty) (k : nat) (x : val) : sctx :=
+    {| sx_len_bad := false; sx_prefix := []; sx_tag := bits_of_N (tag_bits (length fs)) (N.of_nat k);
+       sx_any := ws_sel (ws_field P (ws_body P)) fs k x; sx_hdr := fun _ _ => [] |}.
+
+  (* valid tag: tag, selected option, final padding (for an invalid tag the walker answers bad_tag before the store, the
+     template after it: same error unless the tag store itself fails) *)
+  Theorem ws_union_is_exec : forall fs ext k x buf off, k < length fs ->
+    ws_body P (TComp true fs ext) (VUnion k x) buf off =
+    exec_ser_node [WTag; WTagCase; WAny; WBadTag; WPad] (cx_union fs k x) buf 0 off.
+  Proof.
+    intros fs ext k x buf off Hk. cbn [ws_body exec_ser_node cx_union sx_tag sx_any].
+    destruct (Nat.leb_spec (length fs) k); [lia|].
+    destruct (w_set P buf off _) as [[b o]|]; cbn [bind]; [|reflexivity].
+    destruct (ws_sel _ fs k x b o) as [[b' o']|]; cbn [bind]; [|reflexivity]. rewrite bind_ret. reflexivity.
+  Qed.
+
+  (* ---- deserialization of a composite field ---- *)
+  Record dstate := { d_off : nat; d_hdr : option N; d_val : option val; d_nested_end : nat }.
+
+  Fixpoint exec_des_field (steps : list wstep) (D : list bool -> nat -> nat -> rres val) (buf : list bool) (cap : nat)
+           (off0 : nat) (st : dstate) : rres val :=
+    match steps with
+    | [] => match d_val st with Some v => Ok (v, d_off st) | None => Err EShape end
+    | WHdrRead :: r =>
+        exec_des_field r D buf cap off0
+          {| d_off := d_off st + header_bits; d_hdr := Some (N_of_bits (get_bits P buf cap (d_off st) header_bits));
+             d_val := d_val st; d_nested_end := d_nested_end st |}
+    | WHdrCheck :: r =>
+        match d_hdr st with
+        | Some h => if (N.of_nat (cap / 8 - Nat.min (d_off st / 8) (cap / 8)) <? h)%N then Err EBadHdr
+                    else exec_des_field r D buf cap off0 st
+        | None => Err EShape
+        end
+    | (WBadHdr | WHdrKeep | WErrProp | WRest) :: r => exec_des_field r D buf cap off0 st
+        (* WRest: the nested routine is handed everything that is left (capacity unchanged) *)
+    | WNested :: r =>
+        let ncap := match d_hdr st with Some h => Nat.min cap (d_off st + 8 * N.to_nat h) | None => cap end in   (* bounded by the header *)
+        bind (D buf ncap (d_off st)) (fun '(v, o') =>
+          exec_des_field r D buf cap off0 {| d_off := d_off st; d_hdr := d_hdr st; d_val := Some v; d_nested_end := o' |})
+    | WAdv ZDh8 :: r =>                                                         (* cursor += header VALUE * 8 *)
+        match d_hdr st with
+        | Some h => exec_des_field r D buf cap off0 {| d_off := d_off st + 8 * N.to_nat h; d_hdr := d_hdr st; d_val := d_val st;
+                                                       d_nested_end := d_nested_end st |}
+        | None => Err EShape
+        end
+    | WAdv ZSize8 :: r =>                                                       (* cursor += size the nested routine reports (clamped) *)
+        let avail := cap - Nat.min off0 cap in
+        exec_des_field r D buf cap off0 {| d_off := off0 + 8 * (Nat.min (d_nested_end st - off0) avail / 8); d_hdr := d_hdr st;
+                                           d_val := d_val st; d_nested_end := d_nested_end st |}
+    | _ => Err EShape
+    end.
+
+  Definition d_init (off : nat) : dstate := {| d_off := off; d_hdr := None; d_val := None; d_nested_end := off |}.
+
+  Theorem wd_field_delimited_is_exec : forall f u fs x buf cap off, c_delim f = true ->
+    wd_field P (wd_body P) (TComp u fs (Some x)) buf cap off =
+    exec_des_field (plan_des_comp f) (wd_body P (TComp u fs (Some x))) buf cap off (d_init off).
+  Proof.
+    intros f u fs x buf cap off Hf. unfold plan_des_comp. rewrite Hf.
+    cbn [app wd_field exec_des_field d_init d_off d_hdr d_val d_nested_end].
+    destruct (_ <? _)%N; [reflexivity|].
+    destruct (wd_body P _ buf _ _) as [[v o']|]; cbn [bind]; reflexivity.
+  Qed.
+
+  Theorem wd_field_sealed_is_exec : forall f u fs buf cap off, c_delim f = false ->
+    wd_field P (wd_body P) (TComp u fs None) buf cap off =
+    exec_des_field (plan_des_comp f) (wd_body P (TComp u fs None)) buf cap off (d_init off).
+  Proof.
+    intros f u fs buf cap off Hf. unfold plan_des_comp. rewrite Hf.
+    cbn [app wd_field exec_des_field d_init d_off d_hdr d_val d_nested_end].
+    destruct (wd_body P _ buf cap off) as [[v o']|]; cbn [bind]; reflexivity.
+  Qed.
+End ExecStruct.
 
 (* composite field: the template's steps, modulo error propagation and "constant header first = header written back" *)
 Theorem c_composite_field_is_walker : forall f,
